@@ -74,6 +74,16 @@ def run(F, res, tier):
     res.ob("H1", "input-setters", "salsa input setters / synthetic_write are called only from Change::apply, RootDatabase::default and request_cancellation",
            not bad, where="crates/ide/src/base.rs", how="%d setter call sites, all in the allowed functions" % len(sites) if not bad else str(bad))
     res.floor("setter calls in Change::apply (positive control)", sum(1 for f, t in sites if f.path == "ide::base::Change::apply"), 5)
+    from rules import c12
+    okap, howap = c12.apply_unconditional(F)
+    res.ob("H1", "every-change-applied", "AnalysisHost::apply_change hands every change to Change::apply (no change, e.g. a package-graph-only one, is dropped)",
+           okap, where="crates/ide/src/ide/mod.rs", how=howap)
+    # every field of a Change is consumed by Change::apply (a field that is set but never applied is lost history)
+    import lib.effects as EF_
+    consumed = {e["field"] for e in EF_.field_effects(F.fn("ide::base::Change::apply"), "ide::base::Change")}
+    data_fields = [f_["name"] for f_ in F.adt("ide::base::Change")["variants"][0]["fields"] if not f_["ty"] == "bool"]
+    res.ob("H1", "apply-consumes-all-fields", "Change::apply consumes every data field of Change (package_graph, roots, file_changes)",
+           set(data_fields) <= consumed, where="crates/ide/src/base.rs", how="fields %s, consumed %s" % (data_fields, sorted(consumed)))
     # ---- H2
     stat = [(k, s["ty"]) for k, s in F.statics.items() if in_query_crates(k) and "lex::" not in k
             and not s["ty"].startswith("tracing_core::")]
@@ -237,6 +247,46 @@ def run(F, res, tier):
     okraw = all(p.startswith("ide::def::scope::dependency_order_query") for p, _ in raw)
     res.ob("H4", "raw-intern-ids", "raw intern ids (history-dependent numbers) are read only inside dependency_order_query", okraw and bool(raw),
            where="crates/ide/src/def/scope.rs", how=str(sorted(set(p for p, _ in raw))))
+    # raw ids are opaque node labels: they may be put into edge tuples, nothing may compute with them
+    bad_uses = []
+    n_raw = 0
+    for pth in F.with_closures("ide::def::scope::dependency_order_query"):
+        f = F.fns[pth]
+        tainted = set()
+        for b, t in f.calls():
+            c = callee(t) or callee_def(t) or ""
+            if c.endswith("InternId::as_u32") or c.endswith("InternId::as_usize"):
+                tainted.add(t["dest"]["l"])
+                n_raw += 1
+        changed = True
+        while changed:
+            changed = False
+            for b, i, st in f.stmts():
+                if st["k"] != "assign" or st["place"]["p"]:
+                    continue
+                rv = st["rv"]
+                if rv["k"] in ("use", "cast"):
+                    pl = op_place(rv["op"])
+                    if pl is not None and pl["l"] in tainted and st["place"]["l"] not in tainted:
+                        tainted.add(st["place"]["l"])
+                        changed = True
+        for b, i, st in f.stmts():
+            if st["k"] != "assign":
+                continue
+            rv = st["rv"]
+            if rv["k"] in ("bin", "un"):
+                for key in ("a", "b"):
+                    pl = op_place(rv[key]) if isinstance(rv.get(key), dict) else None
+                    if pl is not None and pl["l"] in tainted:
+                        bad_uses.append((pth, st["ln"], rv["op"]))
+        for b, t in f.calls():
+            c = FL.short(callee(t) or callee_def(t))
+            for a in t["args"]:
+                pl = op_place(a)
+                if pl is not None and not pl["p"] and pl["l"] in tainted and c not in ("Vec::push",):
+                    bad_uses.append((pth, t["ln"], c))
+    res.ob("H4", "raw-intern-ids-opaque", "inside dependency_order_query raw intern ids are only used as opaque graph-node labels (no arithmetic, comparison, min/max or range test on them)",
+           not bad_uses and n_raw >= 2, where="crates/ide/src/def/scope.rs", how="%d as_u32 reads, all flow into edge tuples" % n_raw if not bad_uses else str(bad_uses[:4]))
     # ---- H5
     ic = [(f.path, t["ln"], callee_def(t)) for f, b, t in F.callers_of(lambda c: "InternDatabase::intern_" in c and "lookup" not in c)
           if in_query_crates(f.path) and "GroupStorage" not in f.path and not (f.d.get("impl_trait") or "").startswith("ide::def::InternDatabase")]
